@@ -138,25 +138,27 @@ Proof.
 Qed.
 
 (* exclusion floor, any configuration with exclude_untrusted: no selected peer has a trust
-   (as the policy reads it: NaN and negatives are 0, above 1 is 1) below the floor *)
+   (the provider's answer, NaN read as 0 = unknown) below the floor *)
 Theorem C16_floor_any_config : forall F (S : num F) (c : scfg) key trust_of cands count x,
   c_excl c = true -> In x (select S c key trust_of cands count) ->
-  ltb S (unit S (trust_of (n_id x))) (c_min c) = false.
+  ltb S (nan0 S (trust_of (n_id x))) (c_min c) = false.
 Proof. exact (@select_floor). Qed.
 
 (* storage selections (TrustSelectionConfig::for_storage: floor 0.2, exclusion on) in exact
-   arithmetic: every selected peer has trust >= 1/5; its raw trust is not below 1/5 *)
+   arithmetic: every selected peer has trust >= 1/5 *)
 Theorem C16_storage_floor : forall key (trust_of : N -> Q) cands count x,
   In x (select qnum (for_storage (fun q => q)) key trust_of cands count) ->
-  (SEL_STORAGE_MIN <= unit qnum (trust_of (n_id x)))%Q /\ (1 # 5 <= trust_of (n_id x))%Q.
+  (SEL_STORAGE_MIN <= trust_of (n_id x))%Q /\ (1 # 5 <= trust_of (n_id x))%Q.
 Proof. exact storage_floor_exact. Qed.
 
-(* the same for any number structure satisfying the order laws - binary64 included, where the
-   second conjunct says the raw trust is not NaN: a raw trust below a positive floor, or NaN,
-   is never selected under exclusion *)
+(* the same for any number structure satisfying the order laws - binary64 included: under
+   exclusion a selected peer's trust is not below the floor, and for a positive floor (0.2) it
+   is not NaN either.  Fewer than [count] trusted candidates give a shorter answer
+   (C16_selection_wf: length = min(count, #eligible)); there is no fallback that re-admits. *)
 Theorem C16_storage_floor_raw : forall F (S : num F), laws S -> forall (c : scfg) key trust_of cands count x,
-  c_excl c = true -> ltb S (zero S) (c_min c) = true -> In x (select S c key trust_of cands count) ->
-  ltb S (trust_of (n_id x)) (c_min c) = false /\ leb S (trust_of (n_id x)) (trust_of (n_id x)) = true.
+  c_excl c = true -> In x (select S c key trust_of cands count) ->
+  ltb S (trust_of (n_id x)) (c_min c) = false /\
+  (ltb S (zero S) (c_min c) = true -> leb S (trust_of (n_id x)) (trust_of (n_id x)) = true).
 Proof. intros F S L c key trust_of. exact (floor_raw S L c key trust_of). Qed.
 
 (* the engine: storage selections respect the storage configuration's floor, and every
@@ -164,7 +166,7 @@ Proof. intros F S L c key trust_of. exact (floor_raw S L c key trust_of). Qed.
    local node - for every reachable table *)
 Theorem C16_engine_storage_floor : forall F (S : num F) qc sc trust_of t key count x, c_excl sc = true ->
   In x (engine_select S (Some (qc, sc)) trust_of true t key count) ->
-  ltb S (unit S (trust_of (n_id x))) (c_min sc) = false.
+  ltb S (nan0 S (trust_of (n_id x))) (c_min sc) = false.
 Proof. exact (@engine_storage_floor). Qed.
 
 Theorem C16_engine_selection_wf : forall F (S : num F) sel trust_of storage local ops key count,
